@@ -579,7 +579,7 @@ func checkMsg(c *msgCase, o *vk.Obs) []string {
 }
 
 func TestPropMessages(t *testing.T) {
-	vk.Main(t, vk.Spec[msgCase]{ID: "C20", Facet: "messages", Quick: 25, Thorough: 150, Gen: genMsg, Check: checkMsg, CaseTimeout: 120 * time.Second,
+	vk.Main(t, vk.Spec[msgCase]{ID: "C20", Facet: "messages", Quick: 100, Thorough: 400, Gen: genMsg, Check: checkMsg, CaseTimeout: 120 * time.Second,
 		Rule: "a helper process fetches 8..200 remote sources in parallel, each fetch goroutine announcing its source, with pprof's own message printer (no UI plug-in: messages go to stderr), at GOMAXPROCS 2/8/16; oracle: every stderr line is one whole message (one announcement per source, plus the summary lines) - no torn or merged lines; every case is non-trivial"})
 }
 
